@@ -73,6 +73,7 @@ def plan(pid, tier, seed):
     elif pid == "C09":
         S += scen.directed(pid, tier)
         S += [scen.upgrade_history(base + i, nblocks=n(tier, 12, 18)) for i in range(n(tier, 40, 1500))]
+        S += [scen.fee_cut_history(seed + 1, upgrade_before=3, distinct=True)]
         M += models.for_property(pid, tier)
     elif pid in ("C10", "C13", "C14", "C15", "C20"):
         S += scen.directed(pid, tier)
@@ -83,6 +84,9 @@ def plan(pid, tier, seed):
             # more than 10,000 fee-paying transactions on the best chain (13,600; the cut falls inside a block),
             # and a small one
             S += [scen.fee_cut_history(seed), scen.fee_cut_history(seed, per_block=40, nblocks=3)]
+            # the same with an upgrade before the last block: recomputation from block bodies, cut inside a block
+            # received before the upgrade, every fee different
+            S += [scen.fee_cut_history(seed + 1, upgrade_before=3, distinct=True)]
         if pid == "C15" and tier == "thorough":
             S += [scen.fee_cut_history(seed + k, per_block=pb, nblocks=nbk) for k, (pb, nbk) in
                   enumerate([(2500, 4), (2501, 4), (5000, 2), (5001, 2), (3333, 3), (3334, 3), (9999, 1), (10000, 1), (10001, 1), (1999, 6)])]
